@@ -19,7 +19,7 @@ static std::string op_brief(const OpResult& o)
 static Plan gen_c06(uint64_t seed, int64_t index, bool thorough)
 {
     Rng rng(hash_seed(seed, "C06", index));
-    std::vector<std::string> pk = keys_for({ "G1", "G2", "G3", "G4", "G5", "G6", "G7", "G8", "G9", "T1" });
+    std::vector<std::string> pk = keys_for({ "G1", "G2", "G3", "G4", "G5", "G6", "G7", "G8", "G9", "G10", "G11", "T1" });
     std::vector<std::string> rk = regex_keys();
     PlanOp op;
     std::string mode;
@@ -104,6 +104,20 @@ static Plan gen_c06(uint64_t seed, int64_t index, bool thorough)
         }
         if (!ok) mode = "clean";
     }
+    else if (k < 93)
+    {
+        // stacks crossing their reserved capacity (1024 entries, then 2048, ...) at every possible phase
+        mode = "deep";
+        sh.budget = 4;
+        sh.buffers = { BUF_SIM, BUF_STRING, BUF_VIEW };
+        sh.p_verbose = 0; sh.p_skip_ws_off = 0;
+        std::vector<std::string> dk = keys_for({ "G1", "G2", "G3", "G4", "G5", "G6", "G7", "G11" });
+        key = rng.pick(dk);
+        m = model_for(grammar_of(key));
+        op = make_sentence_op(rng, key, sh);
+        int target = thorough ? int(rng.pick(std::vector<int>{ 1024, 1024, 2048, 4096 })) : int(rng.pick(std::vector<int>{ 1024, 1024, 1024, 2048 }));
+        if (!make_deep_op(op, rng, key, target)) mode = "clean";
+    }
     else
     {
         mode = "grow";
@@ -124,7 +138,7 @@ static std::vector<Violation> case_c06(const Plan& p, CaseCtx& cx)
     std::vector<Violation> vs;
     RunResult rr = exec_plan(p, kFlags);
     const OpResult& o = rr.tasks[0][0];
-    account(cx, p, rr, o.rend.faults_fired > 0 || p.mode == "soup" || p.mode == "grow" || p.mode == "long_lexeme" || p.mode == "regex_soup" || p.mode == "whitespace_only" || p.mode == "regex_empty");
+    account(cx, p, rr, o.rend.faults_fired > 0 || p.mode == "soup" || p.mode == "grow" || p.mode == "deep" || p.mode == "long_lexeme" || p.mode == "regex_soup" || p.mode == "whitespace_only" || p.mode == "regex_empty");
     if (cx.st)
     {
         cx.st->add("mode." + p.mode);
@@ -173,7 +187,7 @@ static std::string first_line(const std::string& s)
 static Plan gen_c09(uint64_t seed, int64_t index, bool thorough)
 {
     Rng rng(hash_seed(seed, "C09", index));
-    std::vector<std::string> pk = keys_for({ "G2", "G3", "G4", "G5", "G8", "G9" });
+    std::vector<std::string> pk = keys_for({ "G2", "G3", "G4", "G5", "G8", "G9", "G10", "G10" });
     std::string key = rng.pick(pk);
     const ref::Model* m = model_for(grammar_of(key));
     OpShape sh;
@@ -191,40 +205,23 @@ static Plan gen_c09(uint64_t seed, int64_t index, bool thorough)
     return single_op_plan("C09", seed, index, mode, op);
 }
 
-static std::vector<Violation> case_c09(const Plan& p, CaseCtx& cx)
+static void c09_clauses(const Plan& p, const OpResult& o, const ref::RefResult& r, std::vector<Violation>& vs)
 {
-    std::vector<Violation> vs;
-    RunResult rr = exec_plan(p, kFlags);
-    const OpResult& o = rr.tasks[0][0];
-    account(cx, p, rr, o.rend.faults_fired > 0);
-    if (cx.st) cx.st->add("mode." + p.mode);
-    if (o.out.exc != 0) { if (cx.st) cx.st->add("unjudged.exception"); return vs; }
-    ref::RefResult r = ref_for(o, REF_CANONICAL);   // "cannot continue any valid prefix": canonical LR(1) is the statement
-    if (r.step_limit) return vs;
     std::string brief = op_brief(o);
     std::string written = o.op.stream == STR_OSS ? o.out.oss_text : o.rec.wrote;
-    if (cx.st)
-    {
-        if (r.accepted) cx.st->add("outcome.accepted");
-        else if (r.lexical_error) cx.st->add("outcome.unexpected_character");
-        else cx.st->add("outcome.syntax_error");
-        if (!r.accepted && !r.lexical_error && !r.tokens.empty() && r.tokens.back().term == o.model->g.eof_idx() && r.messages.size() == 1 && r.messages[0].find("<eof>") != std::string::npos)
-            cx.st->add("probe.error_at_end_of_input");
-        if (!r.accepted && r.tokens.size() <= 1) cx.st->add("probe.error_on_first_term");
-    }
     // (a) empty optional exactly when the input is not in the language
     if (o.out.has_value != r.accepted)
     {
         vs.push_back(make_violation("C09", r.accepted ? "valid_input_rejected" : "invalid_input_accepted",
             std::string("parse returned ") + (o.out.has_value ? "a value" : "no value") + " but the reference " + (r.accepted ? "accepts" : "rejects") + "; " + brief, p));
-        return vs;
+        return;
     }
     if (r.accepted)
     {
         // (b) a successful non-verbose parse writes nothing
         if (!written.empty())
             vs.push_back(make_violation("C09", "output_on_success", "wrote '" + printable(written) + "' on success; " + brief, p));
-        return vs;
+        return;
     }
     // (c) exactly one message, the right one
     const std::string& want = r.messages.empty() ? std::string() : r.messages[0];
@@ -241,7 +238,7 @@ static std::vector<Violation> case_c09(const Plan& p, CaseCtx& cx)
             if (a != std::string::npos && b != std::string::npos && written.substr(a) == want.substr(b)) cls = "wrong_position";
         }
         vs.push_back(make_violation("C09", cls, "wrote '" + printable(written) + "' expected '" + printable(want) + "'; " + brief, p));
-        return vs;
+        return;
     }
     if (o.op.stream == STR_SIM)
     {
@@ -251,9 +248,53 @@ static std::vector<Violation> case_c09(const Plan& p, CaseCtx& cx)
         // (d) reported before any later input is examined
         if (o.rend.effective_buffer == BUF_SIM && r.read_limit_at_first_message >= 0 && o.rec.maxrd_at_first_wr > r.read_limit_at_first_message)
             vs.push_back(make_violation("C09", "examined_later_input",
-                "offset " + std::to_string(o.rec.maxrd_at_first_wr) + " had been read when the message was written; the offending term needs at most offset " +
+                "offset " + std::to_string(o.rec.maxrd_at_first_wr) + " had been read when the message was written; delimiting the terms up to the offending one needs at most offset " +
                 std::to_string(r.read_limit_at_first_message) + "; " + brief, p));
-        if (cx.st && o.rend.effective_buffer == BUF_SIM) cx.st->add("probe.read_high_water_checked");
+    }
+}
+
+static std::vector<Violation> case_c09(const Plan& p, CaseCtx& cx)
+{
+    std::vector<Violation> vs;
+    RunResult rr = exec_plan(p, kFlags);
+    const OpResult& o = rr.tasks[0][0];
+    account(cx, p, rr, o.rend.faults_fired > 0);
+    if (cx.st) cx.st->add("mode." + p.mode);
+    if (o.out.exc != 0) { if (cx.st) cx.st->add("unjudged.exception"); return vs; }
+    ref::RefResult r = ref_for(o, REF_CANONICAL);   // "cannot continue any valid prefix": canonical LR(1) over the term patterns is the statement
+    if (r.step_limit) return vs;
+    if (cx.st)
+    {
+        if (r.accepted) cx.st->add("outcome.accepted");
+        else if (r.lexical_error) cx.st->add("outcome.unexpected_character");
+        else cx.st->add("outcome.syntax_error");
+        if (!r.accepted && !r.lexical_error && !r.tokens.empty() && r.tokens.back().term == o.model->g.eof_idx() && r.messages.size() == 1 && r.messages[0].find("<eof>") != std::string::npos)
+            cx.st->add("probe.error_at_end_of_input");
+        if (!r.accepted && r.tokens.size() <= 1) cx.st->add("probe.error_on_first_term");
+        if (o.op.stream == STR_SIM && o.rend.effective_buffer == BUF_SIM && !r.accepted) cx.st->add("probe.read_high_water_checked");
+        // look-ahead with fall-back to a shorter match happened?
+        for (size_t i = 0; i + 1 < r.tokens.size(); ++i)
+            if (r.tokens[i].off + r.tokens[i].len < r.tokens[i + 1].off + 0 && false) {}
+    }
+    c09_clauses(p, o, r, vs);
+    if (vs.empty()) return vs;
+    // Known finding F5 (known_findings.json): ctpg's lexer automaton merges a literal term that is listed after a
+    // looping pattern into the loop state, so G10's identifier loop continues into the tail of "a-b-c". The outcome is
+    // then exactly what the documented driver gives over the parser's OWN automaton. Classified, never hidden: the
+    // class keeps its name behind the prefix, and anything this does not explain stays a plain violation.
+    if (grammar_of(o.op.parser) == "G10" && o.rmodel && o.rmodel->dfa)
+    {
+        bool letter_dash = false;
+        for (size_t i = 0; i + 1 < o.rend.bytes.size(); ++i)
+            if (o.rend.bytes[i] >= 'a' && o.rend.bytes[i] <= 'z' && o.rend.bytes[i + 1] == '-') { letter_dash = true; break; }
+        if (letter_dash)
+        {
+            ref::RefResult r2 = ref_for(o, REF_REAL_TABLE);
+            std::vector<Violation> v2;
+            if (!r2.step_limit) c09_clauses(p, o, r2, v2);
+            if (!r2.step_limit && v2.empty())
+                for (Violation& v : vs) { v.cls = "known_F5_lexer_merge__" + v.cls; v.detail = "[explained by the parser's own lexer automaton, F5] " + v.detail; }
+        }
     }
     return vs;
 }
@@ -263,7 +304,7 @@ static std::vector<Violation> case_c09(const Plan& p, CaseCtx& cx)
 static Plan gen_c10(uint64_t seed, int64_t index, bool thorough)
 {
     Rng rng(hash_seed(seed, "C10", index));
-    std::vector<std::string> pk = keys_for({ "G1", "G2", "G4", "G4", "G5", "G5", "G7", "G9", "G9", "T1" }, false);
+    std::vector<std::string> pk = keys_for({ "G1", "G2", "G4", "G4", "G5", "G5", "G7", "G9", "G9", "G10", "G10", "G11", "T1" }, false);
     std::string key = rng.pick(pk);
     const ref::Model* m = model_for(grammar_of(key));
     OpShape sh;
@@ -381,7 +422,7 @@ static std::vector<Violation> case_c10(const Plan& p, CaseCtx& cx)
 static Plan gen_c08(uint64_t seed, int64_t index, bool thorough)
 {
     Rng rng(hash_seed(seed, "C08", index));
-    std::vector<std::string> pk = keys_for({ "G1", "G1", "G6", "G7", "G7", "T1" });
+    std::vector<std::string> pk = keys_for({ "G1", "G1", "G6", "G7", "G7", "G11", "G11", "T1" });
     std::string key = rng.pick(pk);
     const ref::Model* m = model_for(grammar_of(key));
     OpShape sh;
